@@ -663,7 +663,11 @@ class Item:
             self.rewrite(cpos, cpos + len("continue"), "{ %s = %s + 1; continue }" % (iv, iv), "R3-for-index")
         self.rewrite(bclose, bclose, "  %s = %s + 1;\n    " % (iv, iv), "R3-for-index")
 
-    def r3_for_owned(self, fn, k):
+    def r3_for_owned_set(self, fn, k):
+        """like for-owned, for a HashSet<&str> consumed by value: its elements as a list first (trusted vx_set_elems)"""
+        self.r3_for_owned(fn, k, True)
+
+    def r3_for_owned(self, fn, k, setmode=False):
         """for X in RECV { BODY } over an owned Vec (BODY consumes X): ==> explicit IntoIter loop
         let mut vx_it = vx_into_iter(RECV); loop { let Some(X) = vx_it.next() else { break; }; BODY }
         (vx_into_iter / VxIntoIter::next: trusted shim of std vec::IntoIter in prelude/into_iter.rs)"""
@@ -676,7 +680,9 @@ class Item:
             raise Undecided("R3 for-owned: header not recognised")
         pat, recv = mo.group(1).strip(), mo.group(2).strip()
         iv = "vx_it" if k == 1 else "vx_it%d" % k
-        self.rewrite(s, bopen + 1, "let mut %s = vx_into_iter(%s);\n    loop\n    /*@loop*/\n    {\n      let Some(%s) = %s.next() else { break; };/*@body*/" % (iv, recv, pat, iv), "R3-for-owned")
+        if setmode:
+            recv = "vx_set_elems(%s)" % recv
+        self.rewrite(s, bopen + 1, "let mut %s = vx_into_iter(%s);/*@pre*/\n    loop\n    /*@loop*/\n    {\n      let Some(%s) = %s.next() else { break; };/*@body*/" % (iv, recv, pat, iv), "R3-for-owned")
 
     def r3_for_by_ref(self, fn, k):
         """for X in RECV.by_ref() { BODY }  ==>  loop { let Some(X) = RECV.next() else { break; }; BODY }
@@ -690,6 +696,37 @@ class Item:
             raise Undecided("R3 for-by-ref: header not recognised")
         pat, recv = mo.group(1).strip(), mo.group(2).strip()
         self.rewrite(s, bopen + 1, "loop\n    /*@loop*/\n    {\n      let Some(%s) = %s.next() else { break; };/*@body*/" % (pat, recv), "R3-for-by-ref")
+
+    def _r3_map_iter(self, fn, k, what):
+        """for X in RECV.keys() / RECV.values() { BODY } over a HashMap<String, V>  ==>  index loop over the key
+        list: let vx_keysK = vx_map_keys(RECV); while i < len { let X = vx_keysK[i]  |  vx_map_index(RECV, vx_keysK[i]); BODY }
+        (vx_map_keys: every key exactly once, in the map's unspecified order; vx_map_index: &m[k]; trusted shims)"""
+        ls = self.loops(fn)
+        if k > len(ls) or ls[k - 1][0] != "for":
+            raise Undecided("LOST-ANCHOR: R3 for-%s loop %d of fn %s in %s" % (what, k, fn, self.where()))
+        _, s, bopen, bclose = ls[k - 1]
+        mo = re.match(r"for\s+(.+?)\s+in\s+(.+?)\s*\.\s*%s\s*\(\s*\)\s*$" % what, self.text[s:bopen], re.S)
+        if not mo:
+            raise Undecided("R3 for-%s: header not recognised" % what)
+        pat, recv = mo.group(1).strip(), mo.group(2).strip()
+        sfx = "" if k == 1 else str(k)
+        iv, kv = "vx_i" + sfx, "vx_keys" + sfx
+        inner = [x for x in ls if bopen < x[1] < bclose]
+        bind = "let %s = %s[%s];" % (pat, kv, iv) if what == "keys" else "let %s = vx_map_index(%s, %s[%s]);" % (pat, recv, kv, iv)
+        self.rewrite(s, bopen + 1, "let %s = vx_map_keys(%s);/*@pre*/\n    let mut %s: usize = 0;\n    while %s < %s.len()\n    /*@loop*/\n    {\n      %s/*@body*/"
+                     % (kv, recv, iv, iv, kv, bind), "R3-for-%s" % what)
+        for c in re.finditer(r"\bcontinue\b", self.m[bopen + 1:bclose]):
+            cpos = bopen + 1 + c.start()
+            if any(lo_ < cpos < lc_ for (_, _, lo_, lc_) in inner):
+                continue
+            self.rewrite(cpos, cpos + len("continue"), "{ %s = %s + 1; continue }" % (iv, iv), "R3-for-%s" % what)
+        self.rewrite(bclose, bclose, "  %s = %s + 1;\n    " % (iv, iv), "R3-for-%s" % what)
+
+    def r3_for_values(self, fn, k):
+        self._r3_map_iter(fn, k, "values")
+
+    def r3_for_keys(self, fn, k):
+        self._r3_map_iter(fn, k, "keys")
 
     def r3_for_index_mut(self, fn, k):
         self.r3_for_index(fn, k, "mut")
@@ -905,8 +942,13 @@ def build_unit(unit_path, repo=REPO):
                     for ei in range(len(it.edits) - 1, -1, -1):
                         ed = it.edits[ei]
                         if "/*@loop*/" in ed[2]:
+                            pretxt = ""
+                            if "---pre---" in payload:
+                                pretxt, _, payload = payload.partition("---pre---")
                             inv, _, bodytxt = payload.partition("---body---")
                             new = ed[2].replace("/*@loop*/", "/*+vx*/" + inv + "/*-vx*/")
+                            if pretxt.strip():
+                                new = new.replace("/*@pre*/", "/*+vx*/" + pretxt + "/*-vx*/")
                             if bodytxt.strip():
                                 new = new.replace("/*@body*/", "/*+vx*/" + bodytxt + "/*-vx*/")
                             it.edits[ei] = (ed[0], ed[1], new, ed[3], ed[4])
@@ -948,7 +990,7 @@ def build_unit(unit_path, repo=REPO):
             else:
                 raise Undecided("unknown directive %s in %s" % (name, unit_path))
         parts = it.render()
-        text = "".join(p[1] for p in parts).replace("/*@loop*/", "").replace("/*@body*/", "")
+        text = "".join(p[1] for p in parts).replace("/*@loop*/", "").replace("/*@body*/", "").replace("/*@pre*/", "")
         # erasure check
         back = erase(text, it.log)
         if tokens_keep_strings(back) != tokens_keep_strings(it.text):
@@ -975,7 +1017,7 @@ def build_unit(unit_path, repo=REPO):
             # approximate: walk the rendered parts
             cur = []
             for (tag, chunk, line) in it.render():
-                chunk = chunk.replace("/*@loop*/", "").replace("/*@body*/", "")
+                chunk = chunk.replace("/*@loop*/", "").replace("/*@body*/", "").replace("/*@pre*/", "")
                 for k in range(chunk.count("\n")):
                     cur.append(("repo" if tag == "src" else tag, it.relpath, line + (k if tag == "src" else 0), origin[1]))
             cur = cur[:n] + [cur[-1] if cur else ("repo", it.relpath, it.line0, origin[1])] * max(0, n - len(cur))
